@@ -342,15 +342,16 @@ theorem step_not_halted {s s' : St} {op : Op} {unw : Option (Nat × Bool)} {ext 
 theorem runExact_inv {s : St} (h : RunExact s) : InvS s [] ∧ (s.halted = true ∨ BaseOk s) := by
   induction h with
   | init => exact ⟨init_inv, Or.inr init_baseOk⟩
-  | @step s0 s1 op unw ext _ hok ha hcl hs ih =>
+  | @step s0 s1 op unw ext h0 ha hcl hs ih =>
     obtain ⟨i, hb⟩ := ih
+    have hok := okFor_of_step op unw ext (run_mapInv h0.run) hs
     have hnh := step_not_halted hs
     have hbase : BaseOk s0 := by
       rcases hb with hh | hb
       · rw [hnh] at hh; cases hh
       · exact hb
     obtain ⟨lk', i', hl⟩ := step_inv op unw ext hok i hs
-    rw [hl ha hbase.base hcl rfl] at i'
+    rw [hl ha hbase.base, droppedBy_clean hcl] at i'
     exact ⟨i', step_baseOk op unw ext hbase hs⟩
 
 /-- **refs_exact**: as long as no cyclic structure was built and no evaluation stack with content
